@@ -11,11 +11,12 @@ RULE = ("schedules of <=24 steps over {advance clock by d, activity, hook start 
         "instant, as server_event does), hook end, let the watcher task run (timer delivered at or after its due time = "
         "arbitrary overshoot)}; timeouts 5..40 ticks; overlapping hooks up to depth 3; 25% of schedules are built around the "
         "set-then-clear race (hook end and next hook start without a watcher step in between) and the small-gap/overshoot "
-        "race. Non-trivial = the watcher slept at least twice or fired or a hook spanned a watcher wake-up; distinct by canonical JSON.")
+        "race; 30% of the schedules run each hook through the real handle_hook + AddonManager with a pending addon hook (async def, or a plain def returning a Future/Task/awaitable). Non-trivial = the watcher slept at least twice or fired or a hook spanned a watcher wake-up; distinct by canonical JSON.")
 TRUSTED = ["Coq 8.16.1 kernel; vm_compute for case evaluation",
            "translator harness/translators/watchdog_cond.py (fail-closed ast walk of TimeoutWatchdog.watch)",
            "hand model of disarm()/register_activity and of asyncio.Event.wait/set/clear wake-up semantics, tied by correspondence",
-           "virtual clock: time.time and asyncio.sleep of mitmproxy.proxy.server are replaced by harness shims"]
+           "virtual clock: time.time and asyncio.sleep of mitmproxy.proxy.server are replaced by harness shims",
+           "30% of the schedules run the hook through the real ProxyConnectionHandler.handle_hook and the real AddonManager (invoke_addon) with addon hook functions that stay pending as async def / returned Future / Task / awaitable; the model sees HookStart/HookEnd at hook start / awaitable resolution"]
 ASSUMPTIONS = ["time is integer ticks; real-time clock drift and float rounding are not modelled",
                "task cancellation of the watcher (CancelledError path) is outside this model"]
 
@@ -48,15 +49,72 @@ def gen(rng, n, tier):
                 depth -= 1
             else:
                 evs.append(["wstep"])
-        out.append({"T": T, "evs": evs})
+        case = {"T": T, "evs": evs}
+        if rng.chance(0.3):
+            # the hook is run by the real ProxyConnectionHandler.handle_hook through the real AddonManager; the addon's
+            # hook function stays pending in one of the ways an addon can: async def, or a plain def returning a
+            # Future / Task / other awaitable (e.g. loop.run_in_executor)
+            case["via"] = "addon"
+            case["kinds"] = [rng.choice(["async", "future", "task", "awaitable"]) for e in evs if e[0] == "start"]
+        out.append(case)
     return out
 
 
 # ------------------------------------------------------------------ implementation under a virtual clock
 def setup_impl():
-    global asyncio, server
+    global asyncio, server, mode_servers, addonmanager, options, tflow, TcpMessageHook, command
     import asyncio
-    from mitmproxy.proxy import server
+    from mitmproxy.proxy import server, mode_servers
+    from mitmproxy import addonmanager, options, command
+    from mitmproxy.test import tflow
+    from mitmproxy.proxy.layers.tcp import TcpMessageHook
+
+
+class _Awaitable:
+    def __init__(self, fut):
+        self.fut = fut
+
+    def __await__(self):
+        return self.fut.__await__()
+
+
+class _PendingAddon:
+    """an addon whose tcp_message hook stays pending until the harness resolves it"""
+    def __init__(self):
+        self.plan = {}     # id(flow) -> (kind, future)
+
+    def _tcp_message_sync(self, flow):
+        kind, fut = self.plan[id(flow)]
+        if kind == "future":
+            return fut
+        if kind == "task":
+            async def wait():
+                await fut
+            return asyncio.get_running_loop().create_task(wait())
+        return _Awaitable(fut)
+
+    async def _tcp_message_async(self, flow):
+        await self.plan[id(flow)][1]
+
+
+class _AddonSync(_PendingAddon):
+    def tcp_message(self, flow):
+        if self.plan[id(flow)][0] == "async":
+            return None
+        return self._tcp_message_sync(flow)
+
+
+class _AddonAsync(_PendingAddon):
+    async def tcp_message(self, flow):
+        if self.plan[id(flow)][0] == "async":
+            await self._tcp_message_async(flow)
+
+
+class _Master:
+    def __init__(self):
+        self.options = options.Options()
+        self.commands = command.CommandManager(self)
+        self.addons = addonmanager.AddonManager(self)
 
 
 class _Clock:
@@ -94,6 +152,17 @@ def run_impl(case):
             wd = server.TimeoutWatchdog(case["T"], cb)
             task = asyncio.get_running_loop().create_task(wd.watch())
             stack = []
+            via_addon = case.get("via") == "addon"
+            if via_addon:
+                master = _Master()
+                a_sync, a_async = _AddonSync(), _AddonAsync()
+                a_async.plan = a_sync.plan
+                master.addons.add(a_sync, a_async)
+                handler = object.__new__(mode_servers.ProxyConnectionHandler)
+                handler.master = master
+                handler.timeout_watchdog = wd
+                kinds = list(case["kinds"])
+                early = []   # hooks whose handle_hook returned before the addon's awaitable was resolved
 
             async def settle():
                 for _ in range(6):
@@ -103,6 +172,22 @@ def run_impl(case):
                     clock.now += e[1]
                 elif e[0] == "act":
                     wd.register_activity()
+                elif e[0] == "start" and via_addon:
+                    f = tflow.ttcpflow()
+                    fut = asyncio.get_running_loop().create_future()
+                    master.addons.lookup  # (real AddonManager)
+                    a_sync.plan[id(f)] = (kinds.pop(0), fut)
+                    ht = asyncio.get_running_loop().create_task(handler.handle_hook(TcpMessageHook(f)))
+                    stack.append((fut, ht, f))
+                    await settle()
+                elif e[0] == "end" and via_addon:
+                    if stack:
+                        i = (e[1] if len(e) > 1 else len(stack) - 1) % len(stack)
+                        fut, ht, f = stack.pop(i)
+                        if ht.done():
+                            early.append(clock.now)
+                        fut.set_result(None)
+                        await settle()
                 elif e[0] == "start":
                     cm = wd.disarm()
                     cm.__enter__()
@@ -121,9 +206,17 @@ def run_impl(case):
                     if fired and not was_fired:
                         trace.append(["fired", clock.now, len(stack)])  # hooks really pending, counted by the harness
                 # observable after every step
+                if via_addon:
+                    for fut, ht, f in stack:
+                        if ht.done() and not fut.done():
+                            trace.append(["early", clock.now])
                 pend = [t[0] for t in timers if not t[1].done()]
                 trace.append([clock.now, wd.last_activity, wd.blocker, wd.can_timeout.is_set(),
                               bool(fired), pend[0] if pend else None, task.done()])
+            if via_addon:
+                for fut, ht, f in stack:
+                    ht.cancel()
+                await asyncio.gather(*[ht for _, ht, _ in stack], return_exceptions=True)
             task.cancel()
             try:
                 await task
@@ -142,7 +235,11 @@ def c_ev(e):
 
 
 def coq_case(case, obs):
-    rows = [r for r in obs["trace"] if r[0] != "fired"]
+    if case.get("via") == "addon":
+        # the event loop runs the watcher task whenever the hook tasks are given a turn, so the rows are not step-aligned
+        # with the model; these schedules are judged by the oracle (pending hooks counted by the harness) only
+        return None
+    rows = [r for r in obs["trace"] if r[0] not in ("fired", "early")]
     def row(r):
         tgt = "None" if r[5] is None else f"(Some {cZ(r[5])})"
         return f"(mkObs {cZ(r[0])} {cZ(r[1])} {cZ(r[2])} {cbool(r[3])} {cbool(r[4])} {tgt})"
@@ -155,6 +252,10 @@ def oracle(case, obs):
     T = case["T"]
     last_act = 0
     for r in obs["trace"]:
+        if r[0] == "early":
+            v.append({"key": "hook-not-awaited", "what": f"handle_hook returned at t={r[1]} while the awaitable returned by the addon's hook function was still pending: the hook is treated as complete (watchdog re-armed, layer resumed) while it is still running"})
+            break
+    for r in obs["trace"]:
         if r[0] == "fired":
             now, blocker = r[1], r[2]
             if blocker > 0:
@@ -163,8 +264,8 @@ def oracle(case, obs):
     # fired although there was activity within the timeout
     fired_at = next((r[1] for r in obs["trace"] if r[0] == "fired"), None)
     if fired_at is not None:
-        rows = [r for r in obs["trace"] if r[0] != "fired"]
-        la = max((r[1] for r in rows if r[0] <= fired_at), default=0)
+        rows = [r for r in obs["trace"] if r[0] not in ("fired", "early")]
+        la = max((r[1] for r in rows if isinstance(r[0], int) and r[0] <= fired_at), default=0)
         la_at_fire = [r[1] for r in rows if r[0] == fired_at]
         if la_at_fire and not (la_at_fire[0] + T < fired_at) and not any(x["key"] == "timeout-during-hook" for x in v):
             v.append({"key": "timeout-despite-activity", "what": f"fired at t={fired_at} with last activity {la_at_fire[0]} and timeout {T}"})
@@ -172,14 +273,17 @@ def oracle(case, obs):
 
 
 def nontrivial(case, obs):
-    rows = [r for r in obs["trace"] if r[0] != "fired"]
+    rows = [r for r in obs["trace"] if r[0] not in ("fired", "early")]
     tg = {r[5] for r in rows if r[5] is not None}
     return len(tg) >= 2 or any(r[4] for r in rows)
 
 
 def classify(case, obs):
-    rows = [r for r in obs["trace"] if r[0] != "fired"]
+    rows = [r for r in obs["trace"] if r[0] not in ("fired", "early")]
     t = []
+    if case.get("via") == "addon":
+        t.append("via-real-addonmanager")
+        t += ["addon-" + k for k in set(case["kinds"])]
     if any(r[4] for r in rows):
         t.append("fired")
     if any(r[2] >= 2 for r in rows):
